@@ -72,6 +72,8 @@ structure St where
   consumeRequested : Bool := false
   consumeStarted : Bool := false
   consumedPairs : Option (List (Nat × Str)) := none
+  clientCtr : Option CliCtr := none          -- the hydrated page's id counter (after `hydrate`)
+  clientMap : List (Nat × Str) := []         -- what `read_data` can see on that page
   created : List Created := []
   writes : List W
   errs : List E
@@ -328,9 +330,9 @@ def step (st : St) (line : String) : St × String :=
     let lookup (id : Nat) : Option Str := (map.reverse.find? (·.1 == id)).map (·.2)
     let c0 := if st.islands then CliCtr.newIslands else CliCtr.new
     let rec go (cs : List Created) (c : CliCtr) (shown : List String) (fetches : Nat) (bad : Bool) :
-        List String × Nat × Bool :=
+        List String × Nat × Bool × CliCtr :=
       match cs with
-      | [] => (shown, fetches, bad)
+      | [] => (shown, fetches, bad, c)
       | Created.bareId true :: rest => go rest c.nextId.2 shown fetches bad
       | Created.write k true :: rest =>
         match st.writes[k]? with
@@ -344,9 +346,50 @@ def step (st : St) (line : String) : St × String :=
           let bad := bad || ((lookup w.id).isSome && stt != "ok")
           go rest c.nextId.2 (shown ++ [s!"{k}:{stt}"]) fetches bad
       | _ :: rest => go rest c shown fetches bad
-    let (shown, fetches, bad) := go st.created c0 [] 0 false
+    let (shown, fetches, bad, cEnd) := go st.created c0 [] 0 false
     let shownS := if shown.isEmpty then "-" else ",".intercalate shown
-    (st, s!"hydrate {shownS} fetches={fetches} ## {if bad then "fail client-value" else "ok"}")
+    ({ st with clientCtr := some cEnd, clientMap := map },
+     s!"hydrate {shownS} fetches={fetches} ## {if bad then "fail client-value" else "ok"}")
+  | "client" :: moment :: kind :: variant :: rest =>
+    let kinds := ["str", "jstr", "json", "slite", "mini", "bytes", "rkyvs", "rkyvi"]
+    let hasAux := kind == "slite" || kind == "mini" || kind == "rkyvs" || kind == "rkyvi"
+    if (moment != "post" && moment != "csr") || !kinds.contains kind
+        || !["d", "ar", "r", "ao", "o", "sv"].contains variant then (st, "bad-op") else
+    let payloads : Option (List Nat × List Nat) :=
+      match rest, hasAux with
+      | [h], false => (bytesOfHex h).map fun r => (r, [])
+      | [h, x], true => match bytesOfHex h, bytesOfHex x with
+        | some r, some a => some (r, a)
+        | _, _ => none
+      | _, _ => none
+    match payloads with
+    | none => (st, "bad-op")
+    | some (raw, aux) =>
+      match encodeOf kind raw aux with
+      | none => (st, "bad-op")
+      | some enc =>
+        let w : W := { id := 0, kind := kind, direct := variant == "d", raw := raw, aux := aux, enc := enc,
+                       reg := false, late := false, consumed := false, completed := false, emitted := 0 }
+        if moment == "csr" then
+          -- `CsrSharedContext`: every id is 0, nothing can be read
+          (st, s!"client csr ids=0 st=none fetches={if w.direct then 0 else 1} ## ok")
+        else
+          match st.clientCtr with
+          | none => (st, "skip")
+          | some c =>
+            let cid := c.nextId.1
+            let found := (st.clientMap.reverse.find? (·.1 == cid)).map (·.2)
+            -- a `SharedValue` only decodes during hydration; the resources look the id up whenever asked
+            let stt := if variant == "sv" then "none" else match found with
+              | some read => decStatus w read
+              | none => "none"
+            let loads := if w.direct then 0 else if stt == "none" then 1 else 0
+            let verdict :=
+              if stt != "none" || found.isSome then "fail late-carrier-reads-transferred-data"
+              else if !w.direct && loads != 1 then "fail late-carrier-does-not-load"
+              else "ok"
+            ({ st with clientCtr := some c.nextId.2 },
+             s!"client post ids={cid} st={stt} fetches={loads} ## {verdict}")
   | ["poll"] =>
     let (r, srv) := st.srv.poll P G
     let st := { st with srv := srv }
